@@ -674,6 +674,127 @@ inductive Eff where
   | clientq (m : Option ModifyRequestC)
   deriving DecidableEq, Repr, Inhabited
 
+/-! ### the fluent builders (fluent/fluent.go): the protobufs they compose, field by field -/
+
+structure BytesValue where
+  Value : String
+  deriving DecidableEq, Repr, Inhabited
+
+/-- `aftpb.Afts_Ipv4Entry` / `aftpb.Afts_Ipv6Entry`: the fields the builders set -/
+structure TopEntryB where
+  NextHopGroup : Option UintValue
+  NextHopGroupNetworkInstance : Option StringValue
+  EntryMetadata : Option BytesValue
+  deriving DecidableEq, Repr, Inhabited
+
+/-- `aftpb.Afts_Ipv4EntryKey` (the payload pointer is set by the constructor and never again) -/
+structure Ipv4KeyB where
+  Prefix : String
+  Ipv4Entry : TopEntryB
+  deriving DecidableEq, Repr, Inhabited
+
+structure Ipv6KeyB where
+  Prefix : String
+  Ipv6Entry : TopEntryB
+  deriving DecidableEq, Repr, Inhabited
+
+/-- the `label` oneof of `aftpb.Afts_LabelEntryKey` -/
+inductive LabelU where
+  | U64 (LabelUint64 : Nat)
+  deriving DecidableEq, Repr, Inhabited
+
+structure PoppedU where
+  PoppedMplsLabelStackUint64 : Nat
+  deriving DecidableEq, Repr, Inhabited
+
+structure LabelEntryB where
+  NextHopGroup : Option UintValue
+  NextHopGroupNetworkInstance : Option StringValue
+  PoppedMplsLabelStack : List PoppedU
+  deriving DecidableEq, Repr, Inhabited
+
+structure LabelKeyB where
+  Label : Option LabelU
+  LabelEntry : LabelEntryB
+  deriving DecidableEq, Repr, Inhabited
+
+structure NhgNhB where
+  Weight : Option UintValue
+  deriving DecidableEq, Repr, Inhabited
+
+structure NhgNhKeyB where
+  Index : Nat
+  NextHop : Option NhgNhB
+  deriving DecidableEq, Repr, Inhabited
+
+structure NhgPayloadB where
+  BackupNextHopGroup : Option UintValue
+  NextHop : List NhgNhKeyB
+  deriving DecidableEq, Repr, Inhabited
+
+structure NhgKeyB where
+  Id : Nat
+  NextHopGroup : NhgPayloadB
+  deriving DecidableEq, Repr, Inhabited
+
+/-- the `entry` oneof of `spb.AFTOperation` / `spb.AFTEntry` as the builders fill it -/
+inductive EntryB where
+  | Ipv4 (Ipv4 : Option Ipv4KeyB)
+  | Ipv6 (Ipv6 : Option Ipv6KeyB)
+  | Mpls (Mpls : Option LabelKeyB)
+  | NextHopGroup (NextHopGroup : Option NhgKeyB)
+  deriving DecidableEq, Repr, Inhabited
+
+/-- `spb.AFTOperation` as `OpProto` builds it (`Id` and `Op` are left to the caller) -/
+structure AFTOperationB where
+  NetworkInstance : String
+  Entry : Option EntryB
+  ElectionId : Option U128
+  deriving DecidableEq, Repr, Inhabited
+
+/-- `spb.AFTEntry` as `EntryProto` builds it -/
+structure AFTEntryB where
+  NetworkInstance : String
+  Entry : Option EntryB
+  deriving DecidableEq, Repr, Inhabited
+
+/-- the `election` oneof of `spb.FlushRequest` -/
+inductive FlushElec where
+  | Id (Id : Option U128)
+  | Override
+  deriving DecidableEq, Repr, Inhabited
+
+/-- `spb.FlushRequest` as the fluent Flush builder fills it -/
+structure FlushRequestB where
+  Election : Option FlushElec
+  NetworkInstance : Option FlushNI
+  deriving DecidableEq, Repr, Inhabited
+
+/-- the builder structs themselves (`fluent.ipv4Entry`, …) as their constructors allocate them -/
+structure Ipv4Builder where
+  pb : Ipv4KeyB
+  ni : String
+  electionID : Option U128
+  deriving DecidableEq, Repr, Inhabited
+
+structure Ipv6Builder where
+  pb : Ipv6KeyB
+  ni : String
+  electionID : Option U128
+  deriving DecidableEq, Repr, Inhabited
+
+structure LabelBuilder where
+  ni : String
+  pb : LabelKeyB
+  electionID : Option U128
+  deriving DecidableEq, Repr, Inhabited
+
+structure NhgBuilder where
+  ni : String
+  pb : NhgKeyB
+  electionID : Option U128
+  deriving DecidableEq, Repr, Inhabited
+
 /-- outcome of one iteration of the Modify receive loop: the RPC ends with this error (`none` =
 clean end), or the loop goes on with the new first-message flag -/
 inductive LoopOut where
